@@ -189,6 +189,7 @@ theorem getUserCommand_slots (w : World) (hs : Safe w) : (getUserCommand w).1.sl
   have hn : w.slots.length = 0 ∨ 0 < w.slots.length := by omega
   obtain ⟨s1, _⟩ := scan_spec w.slots.length w hs hn
   unfold getUserCommand
+  simp only [scanLength_spec]
   cases hsc : scan w.slots.length w with
   | mk w1 r =>
     rw [hsc] at s1
@@ -208,6 +209,7 @@ theorem getUserCommand_none (w : World) (hs : Safe w) (h : (getUserCommand w).2 
   obtain ⟨c1, c2, _⟩ := scan_ready w.slots.length w hs (Nat.le_refl _)
   have hsl := getUserCommand_slots w hs
   unfold getUserCommand at h hsl ⊢
+  simp only [scanLength_spec] at h hsl ⊢
   cases hsc : scan w.slots.length w with
   | mk w1 r =>
     rw [hsc] at c1 c2 h hsl
@@ -241,6 +243,7 @@ theorem getUserCommand_some (w : World) (hs : Safe w) (v : Nat) (t : List Char)
     w.interactive v = true ∧ ∀ x, x ≠ v → ready (getUserCommand w).1 x = ready w x := by
   obtain ⟨c1, _, c3⟩ := scan_ready w.slots.length w hs (Nat.le_refl _)
   unfold getUserCommand at h ⊢
+  simp only [scanLength_spec] at h ⊢
   cases hsc : scan w.slots.length w with
   | mk w1 r =>
     rw [hsc] at c1 c3 h
